@@ -80,6 +80,17 @@ func (e *Effects) Writes() []Write {
 						w.Roots = e.provenance(in.Call.Args[0], f, 0, map[ssa.Value]bool{})
 						out = append(out, w)
 					}
+					// append(x[:k], …) overwrites the elements of x's backing array from k on: a write to that
+					// array, whoever else holds it (append(x, …) only writes beyond len and is not counted)
+					if b, ok := in.Call.Value.(*ssa.Builtin); ok && b.Name() == "append" && len(in.Call.Args) > 0 {
+						if sl, ok := in.Call.Args[0].(*ssa.Slice); ok && sl.High != nil {
+							if _, isSlice := sl.X.Type().Underlying().(*types.Slice); isSlice {
+								w := Write{Instr: in, Fn: f, Addr: sl.X, What: "elements of a re-sliced append destination"}
+								w.Roots = e.provenance(sl.X, f, 0, map[ssa.Value]bool{})
+								out = append(out, w)
+							}
+						}
+					}
 					// mutating methods of synchronised containers are writes to the receiver
 					if cal := in.Call.StaticCallee(); cal != nil && len(in.Call.Args) > 0 {
 						org := cal
@@ -280,6 +291,20 @@ func (e *Effects) provenance(v ssa.Value, fn *ssa.Function, depth int, seen map[
 						}
 					}
 				}
+				// a shallow copy (*local = *p): the pointer-like fields of the copy (slices, maps, pointers) still
+				// refer to what p's fields refer to
+				for _, r := range holder {
+					if al, ok := r.V.(*ssa.Alloc); ok && pointerLike(v.Type()) {
+						for _, ref := range *al.Referrers() {
+							if st, ok := ref.(*ssa.Store); ok && st.Addr == al {
+								if ld, ok := st.Val.(*ssa.UnOp); ok && ld.Op == token.MUL {
+									found = true
+									out = append(out, e.provenance(ld.X, al.Parent(), depth+1, seen)...)
+								}
+							}
+						}
+					}
+				}
 				if found {
 					return out
 				}
@@ -389,4 +414,13 @@ func (w *Write) Shared() []Root {
 // ProvenanceOf returns the roots of pointer v evaluated in fn.
 func (e *Effects) ProvenanceOf(v ssa.Value, fn *ssa.Function) []Root {
 	return e.provenance(v, fn, 0, map[ssa.Value]bool{})
+}
+
+// pointerLike: values of this type share memory when copied (slice, map, pointer, chan, func, interface).
+func pointerLike(t types.Type) bool {
+	switch t.Underlying().(type) {
+	case *types.Slice, *types.Map, *types.Pointer, *types.Chan, *types.Signature, *types.Interface:
+		return true
+	}
+	return false
 }
